@@ -174,3 +174,35 @@ Example C16_period_near_threshold :
   period (announced 2050) = 2000 /\ period (announced 2090) = 2000 /\ period (announced 2100) = 100 /\
   period (announced 190) = 100 /\ period (announced 4050) = 2000.
 Proof. vm_compute. repeat split; reflexivity. Qed.
+
+(* First use of a fresh entity's heartbeat (operation First, exercised by the runner with the two calls released
+   together on fresh entities): AddFunctionType(heartbeat) and the entity's first other access compose
+   sequentially, in either order, to the same situation — a running heartbeat that IsHeartbeatRunning reports,
+   that one StopHeartbeat stops, and whose data then stays the last refresh.  (With StartHeartbeat as the other
+   access: refused before the feature exists, a restart after it; either way one running stream.) *)
+Definition c16_after_first_use (first : list op) : list op :=
+  first ++ [Call 2 CIsRunning; Tick 0; Tick 1; Call 2 CStop; Resume 2; Call 2 CIsRunning; Tick 0; Tick 1; Read].
+
+Definition c16_first_use_ok (first : list op) : bool :=
+  let ops := c16_after_first_use first in
+  let tr := map snd (snd (run init ops)) in
+  let n := length first in
+  (* right after the first use: running, and the one live stream refreshes *)
+  match skipn n tr with
+  | [RetB true] :: rest =>
+      existsb (fun o => match o with [Refreshed 2 _ _ _] => true | _ => false end) (firstn 2 rest) &&
+      (* after the stop: not running, no refresh any more, the data is the last refresh *)
+      match skipn 4 rest with
+      | [[RetB false]; t0; t1; [Data (Some 2%N)]] =>
+          forallb (fun o => match o with [Exited] | [NotRunnable] => true | _ => false end) [t0; t1]
+      | _ => false
+      end
+  | _ => false
+  end && negb (running (fst (run init ops))) && strictly_accepted (judge minit sinit (snd (run init ops))).
+
+Example C16_first_use_orders :
+  c16_first_use_ok [Call 0 CAddFn; Resume 0; Call 1 CIsRunning] = true /\
+  c16_first_use_ok [Call 1 CIsRunning; Call 0 CAddFn; Resume 0] = true /\
+  c16_first_use_ok [Call 0 CAddFn; Resume 0; Call 1 CStart; Resume 1; Resume 1] = true /\
+  c16_first_use_ok [Call 1 CStart; Call 0 CAddFn; Resume 0] = true.
+Proof. vm_compute. repeat split; reflexivity. Qed.
